@@ -316,6 +316,34 @@ import (
 //@   ensures[C15] err == nil ==> WFvalues(St)
 //@   modifies St, failed, readFailed, loadFailed
 
+// lemmaConsecutiveCreates (C07, one induction step of "strictly increasing, never reused"): two successful
+// creates of the same token by the same account - whatever else the two calls carry - return consecutive
+// nonces, and the second call leaves the entry issued by the first untouched.
+func lemmaConsecutiveCreates(e *esdtNFTCreate, acnt vmcommon.UserAccountHandler, in1, in2 *vmcommon.ContractCallInput) ([]byte, []byte) {
+	out1, err := e.ProcessBuiltinFunction(acnt, nil, in1)
+	if err != nil {
+		return nil, nil
+	}
+	out2, err := e.ProcessBuiltinFunction(acnt, nil, in2)
+	if err != nil {
+		return nil, nil
+	}
+	return out1.ReturnData[0], out2.ReturnData[0]
+}
+
+//@ func lemmaConsecutiveCreates
+//@   results n1, n2
+//@   view tok = seq(in1.Arguments[0])
+//@   view snd = seq(in1.CallerAddr)
+//@   view c = beval(St[seq(in1.CallerAddr)][Knonce(seq(in1.Arguments[0]))]) % 18446744073709551616
+//@   requires e != nil && locksFree() && !isNil(e.marshalizer) && !isNil(e.pauseHandler) && !isNil(e.rolesHandler) && esdtPrefix(e.keyPrefix)
+//@   requires in1 != nil && in2 != nil && len(in1.Arguments) >= 1 && len(in2.Arguments) >= 1 && seq(in1.CallerAddr) == seq(in2.CallerAddr) && seq(in1.Arguments[0]) == seq(in2.Arguments[0])
+//@   requires sndIsCaller(acnt, in1) && sndIsCaller(acnt, in2) && WFvalues(St) && argBounds(in1) && argBounds(in2) && costBound(e.funcGasCost) && costBound(e.gasConfig.StorePerByte)
+//@   requires c < 18446744073709551614
+//@   ensures[C07] n2 != nil ==> seq(n1) == be(c + 1) && seq(n2) == be(c + 2) && St[snd][Knonce(tok)] == be(c + 2)
+//@   ensures[C07] n2 != nil ==> len(St[snd][Knft(tok, c + 1)]) != 0 && dMNonce(St[snd][Knft(tok, c + 1)]) == c + 1 && len(St[snd][Knft(tok, c + 2)]) != 0 && dMNonce(St[snd][Knft(tok, c + 2)]) == c + 2
+//@   modifies St, failed, readFailed, loadFailed
+
 // ---- ESDTSetRole / ESDTUnSetRole, role check --------------------------------------------------------------------------------
 
 //@ func doesRoleExist
@@ -361,6 +389,7 @@ import (
 
 //@ func getLatestNonce
 //@   requires !isNil(acnt)
+//@   ensures faultFree ==> readFailed == old(readFailed)
 //@   ensures[C10] isErr(err, ErrInvalidArguments) ==> failed || readFailed
 //@   ensures[C07] err == nil ==> r == beval(St[addr(acnt)][Knonce(seq(tokenID))]) % 18446744073709551616 && readFailed == old(readFailed)
 //@   ensures err != nil ==> readFailed
@@ -368,14 +397,16 @@ import (
 
 //@ func saveLatestNonce
 //@   requires !isNil(acnt)
+//@   ensures faultFree ==> readFailed == old(readFailed)
 //@   ensures[C10] isErr(err, ErrInvalidArguments) ==> failed || readFailed
-//@   ensures[C07] err == nil ==> St[addr(acnt)][Knonce(seq(tokenID))] == be(nonce) && failed == old(failed)
+//@   ensures[C02,C07,C15] err == nil ==> St[addr(acnt)][Knonce(seq(tokenID))] == be(nonce) && failed == old(failed)
 //@   ensures[C17] err != nil ==> failed
 //@   ensures[C05] onlyChanged(St, old(St), addr(acnt), Knonce(seq(tokenID)))
 //@   modifies St, failed
 
 //@ func (e *esdtNFTCreateRoleTransfer) deleteCreateRoleFromAccount
 //@   requires e != nil && !isNil(e.marshalizer) && !isNil(acntDst)
+//@   ensures faultFree ==> readFailed == old(readFailed)
 //@   ensures[C10] isErr(err, ErrInvalidArguments) ==> failed || readFailed
 //@   ensures[C07,C15] err == nil && !readFailed && (len(old(St)[addr(acntDst)][seq(esdtTokenRoleKey)]) == 0 || lnodup(dRoles(old(St)[addr(acntDst)][seq(esdtTokenRoleKey)]))) ==> len(St[addr(acntDst)][seq(esdtTokenRoleKey)]) == 0 || (lnodup(dRoles(St[addr(acntDst)][seq(esdtTokenRoleKey)])) && labsent(dRoles(St[addr(acntDst)][seq(esdtTokenRoleKey)]), "ESDTRoleNFTCreate"))
 //@   ensures[C17] err == nil ==> failed == old(failed)
@@ -385,6 +416,7 @@ import (
 
 //@ func (e *esdtNFTCreateRoleTransfer) addCreateRoleToAccount
 //@   requires e != nil && !isNil(e.marshalizer) && !isNil(acntDst)
+//@   ensures faultFree ==> readFailed == old(readFailed)
 //@   ensures[C10] isErr(err, ErrInvalidArguments) ==> failed || readFailed
 //@   ensures[C17] err == nil ==> failed == old(failed)
 //@   ensures[C07] err == nil && !readFailed ==> len(St[addr(acntDst)][seq(esdtTokenRoleKey)]) != 0
@@ -403,6 +435,7 @@ import (
 //@   view nxt = seq(vmInput.Arguments[1])
 //@   requires e != nil && !isNil(e.marshalizer) && !isNil(e.accounts) && !isNil(e.shardCoordinator)
 //@   requires dstIsRecipient(acntDst, vmInput)
+//@   ensures faultFree ==> readFailed == old(readFailed)
 //@   ensures[C07,C10] isErr(err, ErrInvalidArguments) && !failed && !readFailed && isNil(acntSnd) ==> len(vmInput.Arguments) != 2 || (seq(vmInput.CallerAddr) == ESDTSC() && len(vmInput.Arguments[1]) != len(vmInput.CallerAddr))
 //@   ensures[C11] shape(out, err)
 //@   ensures[C06] err == nil ==> out.GasRemaining == 0 && (seq(vmInput.CallerAddr) == ESDTSC() ==> onlyRcpt(out, nxt) && fwdGas(out, nxt) == 0) && (seq(vmInput.CallerAddr) != ESDTSC() ==> out.OutputAccounts == nil)
@@ -414,6 +447,31 @@ import (
 //@   ensures[C07] err == nil && !readFailed && seq(vmInput.CallerAddr) == ESDTSC() && shardOf(nxt) == selfShard ==> St[nxt][Knonce(tok)] == be(c) && len(St[nxt][Krole(tok)]) != 0 && !labsent(dRoles(St[nxt][Krole(tok)]), "ESDTRoleNFTCreate")
 //@   ensures[C07] err == nil && !readFailed && seq(vmInput.CallerAddr) != ESDTSC() ==> St[dst][Knonce(tok)] == be(beval(nxt) % 18446744073709551616) && len(St[dst][Krole(tok)]) != 0 && !labsent(dRoles(St[dst][Krole(tok)]), "ESDTRoleNFTCreate")
 //@   ensures[C02,C05,C07] err == nil ==> forall(a, addr, k, bseq, !((a == dst || (a == nxt && seq(vmInput.CallerAddr) == ESDTSC() && shardOf(nxt) == selfShard)) && (k == Knonce(tok) || k == Krole(tok))) ==> St[a][k] == old(St)[a][k])
+//@   modifies St, failed, readFailed, loadFailed
+
+// lemmaHandOverThenCreate (C07, the hand-over step of "never below any nonce ever issued"): after a same-shard
+// hand-over of the create role, the first create by the new holder continues from the previous holder's counter.
+func lemmaHandOverThenCreate(rt *esdtNFTCreateRoleTransfer, cr *esdtNFTCreate, owner, next vmcommon.UserAccountHandler, hand, create *vmcommon.ContractCallInput) []byte {
+	_, err := rt.ProcessBuiltinFunction(nil, owner, hand)
+	if err != nil {
+		return nil
+	}
+	out, err := cr.ProcessBuiltinFunction(next, nil, create)
+	if err != nil {
+		return nil
+	}
+	return out.ReturnData[0]
+}
+
+//@ func lemmaHandOverThenCreate
+//@   view tok = seq(hand.Arguments[0])
+//@   view c = beval(St[seq(hand.RecipientAddr)][Knonce(seq(hand.Arguments[0]))]) % 18446744073709551616
+//@   requires rt != nil && !isNil(rt.marshalizer) && !isNil(rt.accounts) && !isNil(rt.shardCoordinator) && hand != nil && dstIsRecipient(owner, hand)
+//@   requires cr != nil && locksFree() && !isNil(cr.marshalizer) && !isNil(cr.pauseHandler) && !isNil(cr.rolesHandler) && esdtPrefix(cr.keyPrefix)
+//@   requires create != nil && len(create.Arguments) >= 1 && len(hand.Arguments) == 2 && seq(hand.CallerAddr) == ESDTSC() && seq(create.CallerAddr) == seq(hand.Arguments[1]) && seq(create.Arguments[0]) == seq(hand.Arguments[0])
+//@   requires sndIsCaller(next, create) && WFvalues(St) && argBounds(create) && costBound(cr.funcGasCost) && costBound(cr.gasConfig.StorePerByte)
+//@   requires shardOf(seq(hand.Arguments[1])) == selfShard && seq(hand.Arguments[1]) != seq(hand.RecipientAddr) && c < 18446744073709551615 && !readFailed && faultFree
+//@   ensures[C07] r != nil && !readFailed ==> seq(r) == be(c + 1) && St[seq(hand.Arguments[1])][Knonce(tok)] == be(c + 1) && len(St[seq(hand.RecipientAddr)][Knonce(tok)]) == 0
 //@   modifies St, failed, readFailed, loadFailed
 
 // ---- SaveKeyValue ---------------------------------------------------------------------------------------------------------------
@@ -489,8 +547,8 @@ import (
 //@   ensures[C04] err == nil && !readFailed && !vmInput.ReturnCallAfterError && !isNil(acntDst) && dst != ESDTSC() && snd != dst && snd != SYS() ==> !frozen(old(St), dst, K) && !paused(old(St), K)
 //@   ensures[C09] err == nil ==> shardOf(dst) != 4294967295
 //@   ensures[C09] err == nil && !isNil(acntDst) && mustVerify(vmInput, 2) ==> payable(dst)
-//@   ensures[C10] err == nil && isNil(acntDst) && isSC(snd) ==> has(out.OutputAccounts, dst) && seq(out.OutputAccounts[dst].OutputTransfers[0].Data) == wireOf("ESDTTransfer", vmInput.Arguments)
-//@   ensures[C10] err == nil && isNil(acntDst) && !isSC(snd) ==> out.OutputAccounts == nil
+//@   ensures[C01,C10] err == nil && isNil(acntDst) && isSC(snd) ==> has(out.OutputAccounts, dst) && seq(out.OutputAccounts[dst].OutputTransfers[0].Data) == wireOf("ESDTTransfer", vmInput.Arguments)
+//@   ensures[C01,C10] err == nil && isNil(acntDst) && !isSC(snd) ==> out.OutputAccounts == nil
 //@   ensures[C15] err == nil ==> WFvalues(St)
 //@   modifies St, failed, readFailed, loadFailed
 
